@@ -7,6 +7,7 @@ drv_sort: script lines
       <keys>  comma separated ints, `-` = empty;  values are 0,1,…,nvals-1 (identified by original index)
       <mode>  int | str        less(i,j) = keys[i] < keys[j]      (str: the harness uses []string keys, same order)
               intb strb spre ssuf swin smix   as int (the harness varies element types / memory sharing of the strings)
+              f64 f32 ff       keys are float TOKENS (see fltRank), less = `<` on the floats; vf64 vf32: as int (float values)
               adv=<seed>       less(i,j) = mix(seed, i, j)         (inconsistent, index based)
               advk=<seed>      less(i,j) = mix(seed, keys[i], keys[j])   (inconsistent, content based)
     output:  k <keys> v <vals> n <number of Less calls> h <hash of the Less log> [log i:j:r …]   (log for min ≤ 16)
@@ -47,6 +48,22 @@ def advkLess (seed : UInt64) : LessFn Int Nat := fun s i j =>
   | some x, some y => mix seed (u64OfInt x) (u64OfInt y)
   | _, _ => false
 
+/-- order class of a float token (the harness maps token `t` to one float bit pattern: 0 -Inf, 1 -1, 2 -denormal,
+    3 -0, 4 +0, 5 +denormal, 6 +1, 7 +Inf, 8 and 9 NaNs, t ≥ 10 the float t); `none` = NaN (incomparable) -/
+def fltRank (t : Int) : Option Int :=
+  if t = 8 ∨ t = 9 then none
+  else if t = 3 ∨ t = 4 then some 3
+  else if t = 5 then some 4
+  else if t = 6 then some 5
+  else if t = 7 then some 4611686018427387904
+  else some t
+
+/-- `keys[i] < keys[j]` on the floats the tokens stand for: -0 and +0 are different tokens that compare equal -/
+def fltLt (x y : Int) : Bool :=
+  match fltRank x, fltRank y with
+  | some a, some b => decide (a < b)
+  | _, _ => false
+
 def fnvStep (h x : UInt64) : UInt64 := (h ^^^ x) * 0x100000001b3
 
 /-- (count, hash) of the Less calls of a log given oldest first -/
@@ -82,6 +99,8 @@ def runSlice (mode : String) (keys : Array Int) (nv : Nat) : String :=
     match mode.splitOn "=" with
     | ["int"] | ["str"] | ["intb"] | ["strb"] | ["spre"] | ["ssuf"] | ["swin"] | ["smix"] =>
       some (stdLess (fun (x y : Int) => decide (x < y)))
+    | ["f64"] | ["f32"] | ["ff"] => some (stdLess fltLt)
+    | ["vf64"] | ["vf32"] => some (stdLess (fun (x y : Int) => decide (x < y)))
     | ["adv", sd] => sd.toNat?.map fun z => advLess (UInt64.ofNat z)
     | ["advk", sd] => sd.toNat?.map fun z => advkLess (UInt64.ofNat z)
     | _ => none
